@@ -26,6 +26,12 @@ Theorem c20_reporter_exact : forall c es ms, reports (async_history c es ms) = s
 Proof. exact reporter_exact. Qed.
 Print Assumptions c20_reporter_exact.
 
+(* ... whichever way the application shuts the mock down: Close(), or AsyncClose() and waiting for the channels *)
+Theorem c20_reporter_exact_shutdown : forall c sd es ms,
+  async_history_sd c sd es ms = async_history c es ms /\ reports (async_history_sd c sd es ms) = spec_reports es ms.
+Proof. intros c sd es ms. split; [apply async_history_sd_eq | apply reporter_exact_sd]. Qed.
+Print Assumptions c20_reporter_exact_shutdown.
+
 (* --- sync mock: SendMessage --- *)
 Theorem c20_sync_returns_scripted : forall s m,
   r_ret (snd (step_sync s m)) = sync_expected s m /\
